@@ -52,7 +52,9 @@ func fnBitCount(ctx *cmdContext, args map[string]any) (output respValue, err err
 	if start < 0 {
 		start = 0
 	} else if start >= length {
-		start = length - 1
+		// the range begins after the end of the string
+		output.data = respInt(0)
+		return
 	}
 
 	if end < start {
